@@ -415,3 +415,98 @@ def connection_calls_are_guarded(ctx):
                       'is_connected stays true and no reconnect is ever attempted', f)
     if n < 4:
         raise AnchorMissing('connection calls in communicate not found')
+
+
+def _t16(test):
+    neg = False
+    t = test
+    while isinstance(t, ast.UnaryOp) and isinstance(t.op, ast.Not):
+        neg = not neg
+        t = t.operand
+    return t, neg
+
+
+@rule('C16.R8', min_instances=8)
+def calls_fail_or_return_a_reply(ctx):
+    """communicate / multicomm of both communicators return a reply on every normal exit (an error handler that forgets to
+    re-raise would hand None to the driver as if it were the device's answer) and start with check_connection(); the reply is
+    read on the side where the command expects one; check_connection attempts the reconnect on the not-connected side, within
+    the rate limit, and raises 'disconnected' when it did not succeed; in AsynConn.readline / readbytes the side of every
+    deadline test on which the time is up raises TimeoutError (it neither loops on nor returns)"""
+    m = ctx.m
+    for cname in ('StringIO', 'BytesIO'):
+        for meth in ('communicate', 'multicomm'):
+            f = m.method(f'frappy.io.{cname}', meth, inherited=False)
+            ctx.analysed(f)
+            cfg = CFG(f.node, m, f.module)
+            ctx.check(not can_end_without_value(cfg, f.node, explicit_none_ok=True), f'{f.qualname}:returns a reply or raises', f.node, 'every normal exit returns the reply',
+                      f'{cname}.{meth} can end without returning a reply (a handler that does not re-raise / a deleted return): the driver gets None as the answer', f)
+            if meth == 'communicate':
+                chk = [i for c in calls_in(f.node) if call_attr(c) == 'check_connection' for i in cfg.node_of(c)]
+                snd = [i for c in calls_in(f.node) if call_attr(c) == 'send' for i in cfg.node_of(c)]
+                ctx.check(bool(chk) and bool(snd) and all(cfg.dominates(chk, i) for i in snd), f'{f.qualname}:connection checked before sending', f.node,
+                          'check_connection() dominates the send', 'the command is sent without check_connection(): a dropped connection is never re-established and the '
+                          'call does not fail with the disconnected error', f)
+                for t in cfg.nodes:
+                    if t.kind == 'test' and src(_t16(t.ast)[0]) == 'noreply':
+                        neg = _t16(t.ast)[1]
+                        reads = {i for c in calls_in(f.node) if call_attr(c) in ('readline', 'readbytes') for i in cfg.node_of(c)}
+                        side = cfg.reach([t.id], labels={'T' if neg else 'F'}, avoid=[t.id])      # reply expected
+                        other = cfg.reach([t.id], labels={'F' if neg else 'T'}, avoid=[t.id])
+                        ctx.check(bool(reads) and bool(reads & side) and not (reads & other - side), f'{f.qualname}:reply read iff one is expected', t.ast,
+                                  'readline on the side where noreply is false',
+                                  f'`{src(t.ast)}`: the reply is read only for commands that have none (time-out) and not for those that have one (the reply stays in '
+                                  'the buffer and is flushed as garbage by the next call)', f)
+    cc = m.method('frappy.io.IOBase', 'check_connection', inherited=False)
+    ctx.analysed(cc)
+    cfg = CFG(cc.node, m, cc.module)
+    att = {i for c in calls_in(cc.node) if call_attr(c) == 'read_is_connected' for i in cfg.node_of(c)}
+    for t in cfg.nodes:
+        if t.kind != 'test':
+            continue
+        core, neg = _t16(t.ast)
+        s = src(core)
+        if s == 'self.is_connected':
+            side = cfg.reach([t.id], labels={'T' if neg else 'F'}, avoid=[t.id])       # not connected
+            other = cfg.reach([t.id], labels={'F' if neg else 'T'}, avoid=[t.id])
+            ok = bool(att) and att <= side and not (att & other - side) and side_never_completes(cfg, t.id, 'T' if neg else 'F') is False
+            raises = {i for x in body_walk(cc.node) if isinstance(x, ast.Raise) for i in cfg.ids(x)}
+            ctx.check(bool(att) and att <= side and bool(raises) and raises <= side, f'{cc.qualname}:reconnect and failure on the not-connected side', t.ast,
+                      'attempt and raise lie on the side where is_connected is false',
+                      f'`{src(t.ast)}`: a connected communicator raises "disconnected" / a disconnected one is used without reconnect attempt', cc)
+        if 'read_is_connected' in s:
+            good = cfg.reach([t.id], labels={'F' if neg else 'T'}, avoid=[t.id])
+            bad_ = [b for b, lab in cfg.succ[t.id] if lab == ('T' if neg else 'F')]
+            rets = {i for x in body_walk(cc.node) if isinstance(x, ast.Return) for i in cfg.ids(x)}
+            ok = bool(rets & good) and side_never_completes(cfg, t.id, 'T' if neg else 'F')
+            ctx.check(ok, f'{cc.qualname}:a failed reconnect raises', t.ast, 'return on success, raise otherwise',
+                      f'`{src(t.ast)}`: a failed reconnect attempt returns normally (the command is sent into a closed connection) / a successful one raises', cc)
+    for meth in ('readline', 'readbytes'):
+        f = m.method('frappy.lib.asynconn.AsynConn', meth, inherited=False)
+        ctx.analysed(f)
+        cfg = CFG(f.node, m, f.module)
+        n = 0
+        deadlines = {x.targets[0].id for x in body_walk(f.node) if isinstance(x, ast.Assign) and isinstance(x.targets[0], ast.Name)
+                     and isinstance(x.value, ast.BinOp) and isinstance(x.value.op, ast.Add) and 'time.time()' in src(x.value)}
+        for t in cfg.nodes:
+            if t.kind != 'test':
+                continue
+            core, neg = _t16(t.ast)
+            parts = core.values if isinstance(core, ast.BoolOp) and isinstance(core.op, ast.And) else [core]
+            for sub in parts:
+                for l, op, r in compare_ops(sub):
+                    if op in ('<', '<=') and 'time.time()' in (l, r) and (set((l, r)) & deadlines):
+                        # normalised l < r : time.time() < end means "time left";  end <= time.time() means "time is up"
+                        up_true = (l in deadlines) != neg if len(parts) == 1 else (l in deadlines)
+                        label = 'T' if up_true else 'F'
+                        if len(parts) > 1 and neg:
+                            continue
+                        n += 1
+                        ok = side_never_completes(cfg, t.id, label) and not (set(cfg.ids(f.node.body[-1])) & set()) 
+                        heads = {x.id for x in cfg.nodes if x.kind == 'test' and isinstance(getattr(x.ast, 'cfg_owner', None), ast.While)}
+                        loops_on = bool(heads & cfg.reach([t.id], labels={label}, avoid=[t.id], exc=False))
+                        ctx.check(ok and not loops_on, f'{f.qualname}:expired deadline raises', t.ast, f'`{src(t.ast)}`: the time-is-up side raises TimeoutError',
+                                  f'`{src(t.ast)}`: on the side where the time is up the loop goes on (or returns) instead of raising: a silent device blocks the caller '
+                                  '(and the communicator lock) beyond its time-out', f)
+        if n < 1:
+            ctx.bad(f'{f.qualname}:expired deadline raises', f.node, 'no comparison of time.time() with the deadline in the receive loop', f)
